@@ -15,7 +15,7 @@
 //!   argsize #<descriptor>            read + write of a wrapper whose code is `invokeinterface m:<descriptor>`
 //!   tiny <N> x<text> | tinydiff x<text> | enigma x<text> | nests x<text>
 //!   desc-field #s | desc-method #s | desc-return #s
-//!   oracle-no-panic <op> <args…>     `ok pass` | `ok out-of-domain` (a site listed as open) | `ok (fail <where>)`
+//!   oracle-no-panic <op> <args…>     `ok pass` | `ok out-of-domain` (a site listed as open: only S9) | `ok (fail <where>)`
 //!   oracle-write-no-panic x<class>   whatever read_class accepts, write_class handles without panicking
 //!   oracle-alloc code x<body>        largest single allocation requested while reading <= 64 * |body| + 2^24
 //!   labels-full <k> | anno-nest <d> | dyn-chain <k> | writer-grow <nops> <nitf>    compact forms of the large witnesses
@@ -80,7 +80,7 @@ const SITES: &[(u32, &str, &str)] = &[
 	(39, "duke/src/simple_class_writer/labels.rs", "Ok((start, end - start))"),
 ];
 /// sites the unchanged tree can reach (the proved domain of the `no_panic_*_partial` theorems excludes them)
-const OPEN_SITES: &[&str] = &["S1", "S2", "S3", "S7", "S8", "S9", "stack", "alloc"];
+const OPEN_SITES: &[&str] = &["S9"];
 
 thread_local! { static LAST: RefCell<String> = const { RefCell::new(String::new()) }; }
 
@@ -374,27 +374,8 @@ fn outc_ans(o: Outc) -> Ans {
 
 // ---- domain predicate of the writer oracle (mirrors `Total.writeDomain`)
 
-/// largest `length` of a Utf8 constant, scanning the constant pool the way `PoolRead::read` walks it; None = malformed
-fn max_utf8_len(b: &[u8]) -> Option<usize> {
-	if b.len() < 10 { return None; }
-	let count = u16::from_be_bytes([b[8], b[9]]) as usize;
-	let (mut i, mut n, mut max) = (10usize, 1usize, 0usize);
-	while n < count {
-		let tag = *b.get(i)?;
-		i += 1;
-		let (size, slots) = match tag {
-			1 => { let l = u16::from_be_bytes([*b.get(i)?, *b.get(i + 1)?]) as usize; max = max.max(l); (2 + l, 1) }
-			3 | 4 => (4, 1), 5 | 6 => (8, 2), 7 | 8 | 16 | 19 | 20 => (2, 1), 9 | 10 | 11 | 12 | 17 | 18 => (4, 1), 15 => (3, 1),
-			_ => return None,
-		};
-		i += size;
-		if i > b.len() { return None; }
-		n += slots;
-	}
-	Some(max)
-}
-/// inside: no descriptor can hold 255 argument slots (S7/S8) and no method can grow to 65533 bytes (S9)
-fn write_domain(b: &[u8]) -> bool { b.len() <= 24000 && matches!(max_utf8_len(b), Some(m) if m < 128) }
+/// inside: no method can grow to 65533 bytes (S9, the one site that is still open)
+fn write_domain(b: &[u8]) -> bool { b.len() <= 24000 }
 
 fn exec_child(op: &str, args: &[Sexp]) -> Ans {
 	match (op, args) {
@@ -435,10 +416,8 @@ fn exec_child(op: &str, args: &[Sexp]) -> Ans {
 			let r = run_code(&b);
 			let m = MAX_REQ.load(Ordering::Relaxed);
 			if let Outc::Panic(p) = &r { if !OPEN_SITES.contains(&p.as_str()) { return Ans::fail(p); } }
-			// a request beyond the bound is the open site 6 (`read_u8_vec(length as usize)`, length: u32): outside the
-			// proved domain; the model says the same exactly when *its* u32-sized request is that large, so any other
-			// oversized allocation shows up as a disagreement
-			if m <= 64 * b.len() + (1 << 24) { Ans::pass() } else if m <= u32::MAX as usize { Ans::out_of_domain() } else { Ans::fail("alloc") }
+			// `alloc_bound_code`: since 8349742 no request exceeds what is present (former site 6)
+			if m <= 64 * b.len() + (1 << 24) { Ans::pass() } else { Ans::fail("alloc") }
 		}
 		_ => match run_plain(op, args) { Ok(o) => outc_ans(o), Err(e) => Ans::BadOp(e) },
 	}
@@ -632,16 +611,6 @@ fn structured_mutant(r: &mut Rng, base: &[u8], out: &mut Out) -> Vec<u8> {
 	b
 }
 
-/// true when reading these bytes could recurse without bound or allocate gigabytes (kept out of the default stream);
-/// conservative test on the bytes only (never runs the implementation)
-fn risky(b: &[u8]) -> bool {
-	// a Dynamic / InvokeDynamic constant together with a BootstrapMethods attribute whose arguments could form a cycle:
-	// we only keep inputs whose pool has no Dynamic (tag 17) constant at all, unless they are untouched corpus files
-	let fields = locate_fields(b);
-	let has_dynamic = fields.iter().any(|(o, _, k)| *k == "pool-tag" && b[*o] == 17);
-	has_dynamic
-}
-
 fn gen_class_stream(r: &mut Rng, tier: Tier, out: &mut Out) {
 	let mut bases: Vec<Vec<u8>> = Vec::new();
 	for dir in ["/verif/corpus/classes", "/verif/corpus/c20"] {
@@ -671,7 +640,6 @@ fn gen_class_stream(r: &mut Rng, tier: Tier, out: &mut Out) {
 			2 => { out.stats.hit("mutant:truncate"); base[..r.below(base.len())].to_vec() }
 			_ => c01gen::mutate(r, base, out.stats),
 		};
-		if risky(&m) && m != *base { out.stats.hit("skipped:dynamic-constant-mutant"); continue; }
 		match i % 3 {
 			0 => hexop(out, "classread", &m),
 			1 => oracle(out, "classread", &[Sexp::bytes(&m)]),
@@ -679,7 +647,7 @@ fn gen_class_stream(r: &mut Rng, tier: Tier, out: &mut Out) {
 		}
 	}
 	// truncation at every position of two small classes
-	let mut tiny: Vec<&Vec<u8>> = bases.iter().filter(|b| !risky(b)).collect();
+	let mut tiny: Vec<&Vec<u8>> = bases.iter().collect();
 	tiny.sort_by_key(|b| b.len());
 	for b in tiny.iter().take(if tier == Tier::Thorough { 6 } else { 2 }) {
 		for n in 0..b.len() { out.stats.hit("mutant:truncate-every"); hexop(out, "classread", &b[..n]); }
@@ -889,12 +857,31 @@ fn gen_wrapped(r: &mut Rng, tier: Tier, out: &mut Out) {
 		if i % 3 == 0 { oracle(out, "anno", &[Sexp::bytes(&b)]); } else { hexop(out, "anno", &b); }
 		if i % 5 == 2 { out.op("oracle-write-no-panic", &[Sexp::bytes(&wrapper_class(&[], Some((28, &b)), &[]))]); out.stats.hit("write-oracle:wrapped-anno"); }
 	}
-	// linear nesting far below the stack budget
-	for d in [1usize, 2, 8, 40, 200] {
+	// linear nesting around the depth limit of 255 (835fdd2) and far beyond what the stack could hold before
+	for d in [1usize, 2, 8, 40, 200, 254, 255, 256, 257, 1000, 50000] { out.op("anno-nest", &[Sexp::nat(d)]); }
+	for d in [253usize, 254, 255, 256] {
+		// the same with annotations: `@ LA; 1 pair (name m, value …)`
 		let mut b = Vec::new();
-		for _ in 0..d { b.extend([b'[', 0, 1]); }
+		for _ in 0..d { b.extend([b'@', 0, 29, 0, 1, 0, 5]); }
 		b.extend([b'I', 0, 15]);
 		hexop(out, "anno", &b);
+		// an empty array at the last level
+		let mut b = Vec::new();
+		for _ in 0..d { b.extend([b'[', 0, 1]); }
+		b.extend([b'[', 0, 0]);
+		hexop(out, "anno", &b);
+	}
+	// Dynamic constants: self reference, cycles, chains around the depth limit of 16 (cb2ce34)
+	for spec in ["(0)", "(1) (0)", "(i 0)", "(1) (2) (0)", "(1 1) (1)"] { out.lines.push(format!("dyn {spec}")); out.stats.hit("op:dyn"); }
+	for k in [1usize, 2, 16, 17, 18, 19, 100, 40000] { out.op("dyn-chain", &[Sexp::nat(k)]); }
+	// a chain of depth 16 whose last constant has an Integer argument (checked at depth 17)
+	{
+		let mut spec: Vec<Sexp> = (0..16).map(|i| Sexp::list(vec![Sexp::nat(i + 1)])).collect();
+		spec.push(Sexp::list(vec![Sexp::tag("i")]));
+		out.op("dyn", &spec);
+		let mut spec: Vec<Sexp> = (0..15).map(|i| Sexp::list(vec![Sexp::nat(i + 1)])).collect();
+		spec.push(Sexp::list(vec![Sexp::tag("i")]));
+		out.op("dyn", &spec);
 	}
 	// every opcode (and every `wide` sub-opcode) once with 0..=4 operand bytes before a `return`: both decoders of
 	// read_code see all 256 arms
@@ -920,12 +907,13 @@ fn gen_wrapped(r: &mut Rng, tier: Tier, out: &mut Out) {
 			hexop(out, "code", &code_body(&c));
 		}
 	}
-	// acyclic bootstrap-argument structures (cycles are the recorded finding, not part of the default stream)
+	// bootstrap-argument structures: mostly acyclic, sometimes with a reference back (depth limit 16 since cb2ce34)
 	for _ in 0..rounds / 10 {
 		let k = r.range(1, 6);
 		let spec: Vec<Sexp> = (0..k).map(|i| {
 			let n = r.below(4);
-			Sexp::list((0..n).map(|_| if i + 1 < k && r.chance(2, 3) { Sexp::nat(r.range(i + 1, k - 1)) } else { Sexp::tag("i") }).collect())
+			Sexp::list((0..n).map(|_| if r.chance(1, 12) { Sexp::nat(r.below(k + 1)) } // any constant, also itself or one too many
+				else if i + 1 < k && r.chance(2, 3) { Sexp::nat(r.range(i + 1, k - 1)) } else { Sexp::tag("i") }).collect())
 		}).collect();
 		out.stats.hit(&format!("dyn:k={k}"));
 		out.op("dyn", &spec);
@@ -1179,8 +1167,7 @@ fn fixed_and_witness_lines(out: &mut Out) {
 	let mut ts = vec![0xaa, 0, 0, 0];
 	ts.extend(0i32.to_be_bytes()); ts.extend(i32::MIN.to_be_bytes()); ts.extend(i32::MAX.to_be_bytes());
 	hexop(out, "code", &code_body(&ts));
-	// the catchable open sites, one deterministic line each (the aborting ones - `dyn (0)`, `anno-nest 50000` - are
-	// replayed as known findings only)
+	// the former open sites 1-8 (now errors) and the open site 9, one deterministic line each
 	hexop(out, "code", &[0, 1, 0, 1, 0, 0, 0, 2, 0, 177, 0, 0, 0, 1, 0, 26, 0, 0, 0, 12, 0, 1, 0, 1, 255, 255, 0, 1, 0, 10, 0, 0]); // S1
 	out.op("labels-full", &[Sexp::nat(65534)]);                                                                                    // S2
 	out.op("labels-full", &[Sexp::nat(65533)]);
